@@ -8,6 +8,11 @@ BUILT = {
          "independent EM byte parser + row model; recovery obligation after faults", "4/C01"),
 }
 PLANNED = {}
+BUILT["C17"] = ("tilt-series metadata: foreign microscope/processing actor populates a TS_$xxx tree (mdoc, tlt, dose, Gctf STAR, CTFFIND4, "
+                "dimension, z-shift files) from a grammar and keeps ground truth; seeded sessions open/sort/prune/write/re-read mdocs, "
+                "call the loaders on files and arrays, build STOPGAP/EM wedge lists (single, batch) with output files; missing/stale "
+                "files, disk faults, crashes; independent mdoc/STAR/EM parsers. The wedge_list console script cannot be imported "
+                "here (numpydoc missing), so the functions it dispatches to are driven directly", "4/C17")
 BUILT["C15"] = ("tilt-stack operations: foreign acquisition actor drops MRC stacks and tilt/index files; seeded sessions run sort/remove/"
                 "split/flip/crop/bin with array (xyz|zyx) or file input, array/list/file tilts and indices, output files chained into "
                 "later operations; disk faults and crashes; selection/permutation model + independent MRC parser", "4/C15")
